@@ -65,11 +65,21 @@ func numTok(v interface{}) (string, bool) {
 // that they can never compare equal to a model value.
 func enc(v interface{}) string {
 	var sb strings.Builder
+	encDepth = 0
 	encTo(&sb, v)
 	return sb.String()
 }
 
+// encDepth guards against cyclic values (an aliasing defect can make a Map contain itself).
+var encDepth int
+
 func encTo(sb *strings.Builder, v interface{}) {
+	encDepth++
+	defer func() { encDepth-- }()
+	if encDepth > 300 {
+		sb.WriteString("?cyclic-or-too-deep")
+		return
+	}
 	switch x := v.(type) {
 	case nil:
 		sb.WriteString("n")
